@@ -179,6 +179,45 @@ fn laws(sa: &Spec, sb: &Spec, sc: &Spec, rc: &mut RCase, allow_contains: bool) -
         if rt != a || m_of(&rt) != ma {
             return fail("asset_expr_roundtrip", format!("a={} -> {:?} -> {}", show(&a), list, show(&rt)));
         }
+        // the list form is additive: the entries of two lists written one after the other (a class may then occur
+        // twice) denote the sum of what the lists denote, in either order
+        let (la, lb): (Vec<tir::AssetExpr>, Vec<tir::AssetExpr>) = (a.clone().into(), b.clone().into());
+        for (first, second, n) in [(&la, &lb, "a++b"), (&lb, &la, "b++a")] {
+            let mut joined = first.clone();
+            joined.extend(second.iter().cloned());
+            let got = CanonicalAssets::from(joined.clone());
+            if m_of(&got) != m_add(&ma, &mb) {
+                return fail("asset_expr_list_not_additive", format!("{}: {:?} denotes {} but a+b={}", n, joined, show(&got), show(&ab)));
+            }
+        }
+        // equal values are indistinguishable: what holds of one holds of the other (zero entries are immaterial
+        // however the value was built)
+        for (x, mx, y, my, n) in [(&a, &ma, &b, &mb, "a,b"), (&a, &ma, &c, &mc, "a,c"), (&zero_eq, &Model::new(), &CanonicalAssets::empty(), &Model::new(), "a-a,empty")] {
+            if mx == my {
+                if x.is_empty() != y.is_empty() {
+                    return fail("equal_values_distinguished:is_empty", format!("{}: {} is_empty={} but {} is_empty={}", n, show(x), x.is_empty(), show(y), y.is_empty()));
+                }
+                if ma.values().all(|v| *v >= 0) && mx.values().all(|v| *v >= 0) {
+                    for held in [&a, &ab] {
+                        if held.contains_some(x) != held.contains_some(y) {
+                            return fail("equal_values_distinguished:contains_some", format!("{}: contains_some({}, {}) = {} but contains_some(.., {}) = {}", n, show(held), show(x), held.contains_some(x), show(y), held.contains_some(y)));
+                        }
+                        if allow_contains && held.contains_total(x) != held.contains_total(y) {
+                            return fail("equal_values_distinguished:contains_total", format!("{}: contains_total({}, {}) differs from contains_total(.., {})", n, show(held), show(x), show(y)));
+                        }
+                    }
+                }
+            }
+        }
+        // the empty value, however it is written
+        for (z, n) in [(CanonicalAssets::from_naked_amount(0), "from_naked_amount(0)"), (a.clone() - a.clone(), "a - a"), (-CanonicalAssets::from_naked_amount(0), "-from_naked_amount(0)")] {
+            if !z.is_empty() {
+                return fail("equal_values_distinguished:is_empty", format!("{} is not empty: {}", n, show(&z)));
+            }
+            if ma.values().all(|v| *v >= 0) && a.contains_some(&z) != a.contains_some(&CanonicalAssets::empty()) {
+                return fail("equal_values_distinguished:contains_some", format!("contains_some({}, {}) differs from contains_some(.., empty())", show(&a), n));
+            }
+        }
         // reduce over Assets expressions
         let ea = tir::Expression::Assets(a.clone().into());
         let eb = tir::Expression::Assets(b.clone().into());
